@@ -14,6 +14,7 @@ from .core import Ctx, Unmodelled, Abort, Reject, explore, set_ctx
 OB_RLIMIT = 15_000_000            # deterministic z3 resource limit per obligation (>= 100x the largest need seen)
 
 HARNESSES = {}
+KNOWN_REGIONS = set()  # input regions of open known findings: short solver budget there (the native fallback decides)
 FAST = [False]         # canary runs: short solver budget (a mutant left undecided goes to the bounded fallback)
 
 
@@ -75,7 +76,8 @@ def discharge(ob):
     s.set('rlimit', OB_RLIMIT)
     # wall-clock safety net only; the deterministic limit is rlimit.  A `False` goal asks for a model of the whole path
     # condition (feasibility of an unexpected exception): kept short, the native fallback decides it otherwise
-    s.set('timeout', 6000 if (z3.is_false(ob.goal) or FAST[0]) else 40000)
+    fast = z3.is_false(ob.goal) or FAST[0] or ob.meta.get('region') in KNOWN_REGIONS
+    s.set('timeout', (2500 if FAST[0] else 6000) if fast else 40000)
     for p in ob.pc:
         s.add(p)
     s.add(z3.Not(ob.goal))
@@ -160,6 +162,16 @@ def replay_conc(h, values, model=None, consts=None):
     try:
         c = Ctx(h.name, h.props, mode='conc', values=values)
         c.model, c.model_consts = model, consts
+        if model is not None and consts:
+            # the finite key universe of the replay: every key constant of the symbolic run (declared witnesses AND the
+            # engine's own skolems such as loop keys), at its model value
+            for nm, k in consts.items():
+                if k.sort() == core.K and not z3.is_array(k):
+                    try:
+                        v = model.eval(k, model_completion=True).as_long()
+                        c.keyorder[core.key_to_str(v)] = v
+                    except Exception:
+                        pass
         set_ctx(c)
         try:
             h.fn(c)
@@ -206,6 +218,8 @@ def verify_harness(name, do_replay=True):
             if do_replay and h.conc:
                 d['replay'] = _replay_ob(h, ob, c)
         res['obligations'].append(d)
+        if FAST[0] and ob.verdict == 'refuted':
+            break              # canary run: one refutation is all that is asked for
     res['seconds'] = time.time() - t0
     return res
 
